@@ -31,7 +31,7 @@ def observe(spec, inputs):
             for nid, objs in nodes.items():
                 o = objs[0]
                 if not issubclass(o.__class__, n.puan.variable) and getattr(o, "generated_id", False) and o.value == 1 and o.sign == 1 \
-                        and sorted(x.id for x in o.propositions) == sorted(comp) and all(issubclass(x.__class__, n.puan.variable) for x in o.propositions):
+                        and sorted(x.id for x in o.propositions) == sorted(comp):
                     d2.append(str(nid))
         out["d2"] = d2
     except Exception as e:   # noqa
